@@ -22,6 +22,54 @@ fn edge_pair(a: u64, b: u64) -> (u64, u64) {
     if a <= b { (a, b) } else { (b, a) }
 }
 
+/// Counts and edge sets only (every valid complex, closed ones included): the stored cells'
+/// vertex pairs against `edges()`, `number_of_edges()` and the adjacency-index variants; vertex
+/// and cell counts against the stores.
+fn compare_counts<K: SimKernel<D>, const D: usize>(dt: &Dt<K, D>, s: &Snap) -> Vec<(String, String)> {
+    let mut bad: Vec<(String, String)> = Vec::new();
+    let mut edges: BTreeSet<(u64, u64)> = BTreeSet::new();
+    for c in &s.cells {
+        for (i, a) in c.verts.iter().enumerate() {
+            for b in &c.verts[i + 1..] {
+                edges.insert(edge_pair(*a, *b));
+            }
+        }
+    }
+    let tri = dt.as_triangulation();
+    let got: BTreeSet<(u64, u64)> = dt
+        .edges()
+        .map(|e| {
+            let (a, b) = e.endpoints();
+            edge_pair(a.data().as_ffi(), b.data().as_ffi())
+        })
+        .collect();
+    if got != edges {
+        bad.push(("edges".into(), format!("edges() has {} edges, enumeration {}", got.len(), edges.len())));
+    }
+    if tri.number_of_edges() != edges.len() {
+        bad.push(("number_of_edges".into(), format!("{} vs {}", tri.number_of_edges(), edges.len())));
+    }
+    if dt.number_of_vertices() != s.verts.len() || dt.number_of_cells() != s.cells.len() {
+        bad.push(("number_of_vertices_or_cells".into(), format!("{} / {} vs {} / {}", dt.number_of_vertices(), dt.number_of_cells(), s.verts.len(), s.cells.len())));
+    }
+    if let Ok(ix) = dt.build_adjacency_index() {
+        let got: BTreeSet<(u64, u64)> = dt
+            .edges_with_index(&ix)
+            .map(|e| {
+                let (a, b) = e.endpoints();
+                edge_pair(a.data().as_ffi(), b.data().as_ffi())
+            })
+            .collect();
+        if got != edges {
+            bad.push(("edges_with_index".into(), format!("{} vs {}", got.len(), edges.len())));
+        }
+        if tri.number_of_edges_with_index(&ix) != edges.len() || ix.number_of_edges() != edges.len() {
+            bad.push(("number_of_edges_with_index".into(), format!("{} / {} vs {}", tri.number_of_edges_with_index(&ix), ix.number_of_edges(), edges.len())));
+        }
+    }
+    bad
+}
+
 #[allow(clippy::too_many_lines)]
 fn compare<K: SimKernel<D>, const D: usize>(dt: &Dt<K, D>, s: &Snap, stale: &[u64]) -> Vec<(String, String)> {
     let mut bad: Vec<(String, String)> = Vec::new();
@@ -232,6 +280,26 @@ impl<K: SimKernel<D>, const D: usize> Monitor<K, D> for C15 {
         };
         let Some(obj) = obj else { return };
         let Some(dt) = ctx.world.objs.get(obj).and_then(|o| o.as_ref()) else { return };
+        // Closed (periodic) complexes: a D = 2 triangulation built by `toroidal_periodic` is a valid
+        // triangulation that is not a ball (chi = 0). The ball-specific part of this monitor does
+        // not apply; the simplex counts and the agreement of the indexed variants do. Judged only
+        // where the library's own Levels 1-3 accept the state.
+        if post.policies.get(4).is_some_and(|m| m.contains("Toroidal")) {
+            if post.cells.is_empty() || dt.tds().is_valid().is_err() || dt.as_triangulation().is_valid().is_err() {
+                ctx.stats.bump("c15.periodic_state_not_valid");
+                return;
+            }
+            ctx.stats.bump("c15.periodic_state_judged");
+            ctx.stats.evaluations += 1;
+            let kind = ctx.oprec.op.kind();
+            for (what, detail) in compare_counts(dt, post) {
+                push_violation(
+                    ctx.violations,
+                    violation("C15", "query-disagrees-with-stored-complex", ctx.step, format!("query={what}|periodic|after={kind}|result={:?}", out.kind), format!("after {kind} ({}) on a periodic complex: {what}: {detail}", out.class())),
+                );
+            }
+            return;
+        }
         // the comparison is defined for structurally consistent complexes (Levels 1-2)
         let mut rep = refval::Report::default();
         refval::level1(post, &mut rep);
